@@ -548,11 +548,13 @@ class Interp:
                 kx = sym.smax(start, stop)
                 scrub()
                 rule.havoc(self, fr, kx)
+                c.ghost["phase"] = "exhausted"
             else:
                 kx = SInt.var(c.fresh_name("kexit"))
                 c.assume(kx >= 0)
                 scrub()
                 rule.havoc(self, fr, kx)
+                c.ghost["phase"] = "exhausted"
                 cond = self.eval(s.test, fr)
                 c.assume(snot(cond) if isinstance(cond, SBool) else (not cond))
             c.where = where0
@@ -565,6 +567,7 @@ class Interp:
             c.assume(k < stop)
         scrub()
         rule.havoc(self, fr, k)
+        c.ghost["phase"] = "generic"
         if rng is not None:
             self.assign(s.target, k, fr)
         else:
@@ -579,6 +582,7 @@ class Interp:
             pass
         c.where = f"{qual}#loop{ordinal}.preserve"
         rule.preserve(self, fr, k)
+        c.ghost["loop_end"] = (qual, ordinal, fr)
         raise PathAbort("end of generic loop iteration")
 
     def _is_live(self, name, fr):
@@ -657,6 +661,9 @@ class Interp:
         if f is None:
             raise OutOfReach(f"operator {type(op).__name__}")
         l, r = _num(l), _num(r)
+        if (isinstance(l, Opaque) and l.what == "time") or (isinstance(r, Opaque) and r.what == "time"):
+            if isinstance(l, (Opaque, int, Fraction)) and isinstance(r, (Opaque, int, Fraction)):
+                return Opaque("time")    # clock readings only combine into clock readings
         dn = self._DUNDER.get(type(op))
         if dn is not None:
             if isinstance(l, Obj):
